@@ -893,9 +893,22 @@ impl Sys {
         rows.sort_by(|a, b| a.0.cmp(&b.0));
         let nrep = self.clients[c].app.world_mut().query_filtered::<Entity, With<Replicated>>().iter(self.clients[c].app.world()).count();
         let status = if self.clients[c].app.world().resource::<RepliconClient>().is_connected() { 1 } else { 0 };
+        // `MutateTickReceived` events of this frame (tracking on)
+        let mtr = if self.cfg.track {
+            let ticks: Vec<String> = self.clients[c]
+                .app
+                .world_mut()
+                .resource_mut::<Events<bevy_replicon::client::server_mutate_ticks::MutateTickReceived>>()
+                .drain()
+                .map(|e| e.tick.get().to_string())
+                .collect();
+            format!(" mtr={}", if ticks.is_empty() { "-".to_string() } else { ticks.join(",") })
+        } else {
+            String::new()
+        };
         writeln!(
             out,
-            "= cli c={c} conn={status} upd={upd} mapok={} nrep={nrep} ents={}",
+            "= cli c={c} conn={status} upd={upd} mapok={} nrep={nrep}{mtr} ents={}",
             consistent as u8,
             if rows.is_empty() { "-".to_string() } else { rows.into_iter().map(|r| r.1).collect::<Vec<_>>().join("|") }
         )
@@ -937,6 +950,7 @@ pub fn generate(opts: &Opts, profile: &str, out: &mut Out) {
         let cfg = match profile {
             "sys_vis" => Cfg { wrong: 0, junk: false, events: false, dedicated: false, whitelist: crng.chance(1, 2), clients: crng.range(1, 2) as usize, track: false, sync: false, auth: "none".into() },
             "sys_split" => Cfg { wrong: 0, junk: false, events: false, dedicated: false, whitelist: false, clients: 1, track: crng.chance(1, 3), sync: crng.chance(2, 3), auth: "none".into() },
+            "sys_track" => Cfg { wrong: 0, junk: false, events: false, dedicated: false, whitelist: false, clients: 1, track: true, sync: crng.chance(1, 3), auth: "none".into() },
             "sys_auth" => {
                 let clients = crng.range(1, 3) as usize;
                 let auth: String = (*crng.pick(&["check", "check", "custom", "none"])).into();
@@ -987,7 +1001,8 @@ pub fn generate(opts: &Opts, profile: &str, out: &mut Out) {
             g.val = 3_000_000_000;
             g.run_junk(id, opts.thorough, out);
         } else {
-            g.run(profile);
+            // sys_track: the sys_split histories with per-tick tracking always on
+            g.run(if profile == "sys_track" { "sys_split" } else { profile });
         }
         out.write_all(&g.buf).unwrap();
         writeln!(out, "end").unwrap();
@@ -1446,9 +1461,31 @@ impl Gen {
                 89..=90 if profile == "sys" || profile == "sys_evt" || (profile == "sys_auth" && self.sys.cfg.auth != "check") => {
                     let c = self.rng.below(nclients as u64);
                     if self.sys.clients[c as usize].server_side.is_some() {
+                        if self.rng.chance(1, 2) {
+                            // leave the session with a mutate message buffered on the client: a tick
+                            // that mutates and spawns, of which only the mutations channel is delivered
+                            if let Some(e) = self.live() {
+                                let v = self.v();
+                                self.step(format!("mut {e} A={v}"));
+                            }
+                            self.spawn(profile);
+                            self.step("sframe tick=1".into());
+                            while !self.sys.clients[c as usize].s2c[1].is_empty() { self.step(format!("deliver {c} s2c 1 0")); }
+                            self.step(format!("cframe {c}"));
+                        }
                         self.step(format!("disconnect {c}"));
                         self.step("sframe tick=0".into());
                         self.step(format!("cframe {c}"));
+                        if self.rng.chance(1, 2) {
+                            // … and come back at once
+                            self.step(format!("connect {c}"));
+                            for _ in 0..2 {
+                                self.step("sframe tick=1".into());
+                                self.network(0);
+                                self.step(format!("cframe {c}"));
+                                self.network(0);
+                            }
+                        }
                     } else {
                         self.step(format!("connect {c}"));
                     }
